@@ -576,6 +576,28 @@ class G:
             body_items = [["continue"]]
         elif shape == 2:
             body_items = []
+        elif shape in (5, 6) and cx.can_jump and cx.depth < 4:
+            # nested loops with Continue/Break at both levels, every stage observable
+            ictr = self.new_var("U", cx, counter=True)
+            ibound = self.pick([1, 2, 3])
+            icond = ["bin", "Lt", ["load", ictr], ["int", ibound]]
+            iinc = ["store", ictr, ["nary", "Add", [["load", ictr], ["int", 1]]]]
+            jump = lambda: ["if", self.cond_expr(cx.operand()), self.pick([["continue"], ["continue"], ["break"]]), None, self.pick(["fn", "then"])]  # noqa
+            ibody = [self.observe(bcx, ["nary", "Add", [["nary", "Mul", [["load", ctr], ["int", 10]]], ["load", ictr]]])]
+            if self.chance(7):
+                ibody.append(jump())
+            ibody.append(self.observe(bcx, ["nary", "Add", [["load", ictr], ["int", 100]]]))
+            if self.chance(5):
+                inner = ["for", ["store", ictr, ["int", 0]], icond, iinc, ["seq", ibody]]
+            else:
+                inner = ["seq", [["store", ictr, ["int", 0]], ["while", icond, ["seq", [iinc] + ibody]]]]
+            body_items = [self.observe(bcx, ["nary", "Add", [["load", ctr], ["int", 1000]]])]
+            if self.chance(5):
+                body_items.append(jump())
+            body_items.append(inner)
+            if self.chance(5):
+                body_items.append(jump())
+            body_items.append(self.observe(bcx, ["nary", "Add", [["load", ctr], ["int", 2000]]]))
         elif shape in (3, 4) and cx.can_jump:
             # observable statements followed by an unconditional tail Break / Continue
             body_items = [self.observe(bcx, ["nary", "Add", [["load", ctr], ["int", self.i(0, 50)]]])]
